@@ -43,6 +43,7 @@ def run(prog, rep, tier='quick', config='default'):
     if not rep.anchor('benefit/trade matcher (consumes trades from a Vec<BrokerTx>)', matchers):
         return
     m = matchers[0]
+    r19g(prog, rep, fns)
     # ------------------------------------------------------------------ R19a
     adds = [c for c in m.calls if re.search(r'time::Date::(saturating_add|checked_add)$|ops::Add<time::Duration>', c.callee)]
     n = days_of(prog, m, adds[0].args[1]) if adds else None
@@ -235,3 +236,55 @@ def run(prog, rep, tier='quick', config='default'):
             rep.ok('R19d', 'rows-sorted-after-all-are-generated', where=srt[0].where(), fn=g.name, detail='sort follows every push and no push follows the sort')
         else:
             rep.violation('R19d', 'rows-sorted-after-all-are-generated', fn=g.name, where=srt[0].where() if srt else '', detail='rows are pushed after the sort (or never sorted)')
+
+
+# ---------------------------------------------------------------------------------------------------- R19g
+FILTERS = {'filter', 'filter_map', 'retain', 'retain_mut', 'take', 'take_while', 'skip', 'skip_while', 'step_by', 'dedup', 'dedup_by',
+           'dedup_by_key', 'truncate', 'drain', 'split_off', 'pop', 'map_while', 'unique', 'unique_by'}
+
+
+def r19g(prog, rep, fns):
+    """every benefit entry and every trade confirmation that was parsed is collected: the collector's feeds are not filtered,
+    not de-duplicated, and not conditional on what has been collected so far (two equal sales on one day are two trades)"""
+    coll = [f for f in fns if f.kind == 'Fn' and re.search(r'PdfData', f.ty.get(0, '')) and
+            any(c.short in ('append', 'push', 'extend') and re.search(r'Vec<(%s|%sBenefitEntry)' % (re.escape(BTX), re.escape(MOD.replace('etrade_plan_pdf_tx_extract_impl::', 'broker::etrade::'))), f.ty.get(c.arg_local(0), '')) for c in f.calls)]
+    if not coll:
+        coll = [f for f in fns if any(c.short in ('append', 'push', 'extend') and re.search(r'Vec<%s' % re.escape(BTX), f.ty.get(c.arg_local(0), '')) for c in f.calls)
+                and any('PathBuf' in t for t in f.ty.values())]
+    if not rep.anchor('collector of parsed PDF contents (feeds Vec<BrokerTx> / Vec<BenefitEntry> from files)', coll):
+        return
+    f = coll[0]
+    n = 0
+    for c in f.calls:
+        if c.short not in ('append', 'push', 'extend', 'extend_from_slice') or len(c.args) < 2:
+            continue
+        rty = f.ty.get(c.arg_local(0), '')
+        if not re.search(r'Vec<.*(BrokerTx|BenefitEntry)', rty):
+            continue
+        root = mir.nearest_user_local(f, c.args[0])
+        if root is None:
+            continue
+        n += 1
+        what = 'trade confirmations' if 'BrokerTx' in rty else 'benefit entries'
+        bad = None
+        o = mir.provenance(f, c.args[1], follow_all_call_args=True)
+        fl = [y for y in o.calls if y.short in FILTERS and y.decl.startswith('std::')]
+        if fl:
+            bad = 'the %s added pass through %s()' % (what, fl[0].short)
+        for x in f.calls:
+            if x.args and x is not c and mir.nearest_user_local(f, x.args[0]) == root and x.short in FILTERS:
+                bad = '%s() is applied to the collected %s' % (x.short, what)
+        for (sbb, discr, vals, neg) in f.conditions_at(c.bb):
+            d = mir.provenance(f, discr, follow_all_call_args=True)
+            if root in d.locals and any(y.short in ('any', 'contains', 'iter', 'position', 'find', 'all', 'binary_search', 'binary_search_by', 'last', 'first')
+                                        for y in d.calls):
+                bad = 'whether a parsed entry is added depends on the %s collected so far' % what
+        k = '%s|every-parsed-entry-is-collected|%s#%d' % (short(f.name), what.replace(' ', '-'), n)
+        if bad:
+            rep.violation('R19g', k, where=c.where(), fn=f.name,
+                          detail='%s: an entry that was read from the documents can be left out (two equal sales on one day are two trades), so a '
+                                 'benefit finds no trade to match or a sale is missing from the output' % bad)
+        else:
+            rep.ok('R19g', k, where=c.where(), fn=f.name, detail='%s are added unconditionally and unfiltered' % what)
+    if n < 2:
+        rep.violation('R19g', 'anchor-lost:collector-feeds', fn=f.name, detail='anchor lost: only %d feed sites of the collected benefit / trade lists found' % n)
